@@ -307,6 +307,10 @@ func (u *Universe) prelude() string {
 	b.WriteString("(define-fun nil_slice () Slice (mkSlice 0 0 0))\n")
 	b.WriteString("(define-fun nil_any () Any (mkAny 0 0 \"\" nil_slice))\n")
 	b.WriteString("(declare-const time_zero Time)\n")
+	// element addresses go through idx so that quantifiers over slice indices
+	// have arithmetic-free triggers
+	b.WriteString("(declare-fun idx (Int Int) Int)\n")
+	b.WriteString("(assert (forall ((b Int) (i Int)) (! (= (idx b i) (+ b i)) :pattern ((idx b i)))))\n")
 	for _, n := range u.structOrd {
 		si := u.structs[n]
 		if len(si.fields) == 0 {
@@ -319,6 +323,7 @@ func (u *Universe) prelude() string {
 		}
 		b.WriteString("))))\n")
 	}
+	b.WriteString(u.wfAnyDef())
 	for _, l := range u.uninterp {
 		b.WriteString(l)
 		b.WriteString("\n")
@@ -569,4 +574,51 @@ func eq(a, b string) string {
 		return "true"
 	}
 	return "(= " + a + " " + b + ")"
+}
+
+// wfAnyDef: representation invariant of interface values: the payload slots
+// not used by the dynamic type hold their zero value, booleans are 0/1,
+// nil has no payload.
+func (u *Universe) wfAnyDef() string {
+	byRepr := map[string][]string{}
+	var tags []int
+	for t := range u.tagTypes {
+		tags = append(tags, t)
+	}
+	sort.Ints(tags)
+	for _, tg := range tags {
+		t := u.tagTypes[tg]
+		r := "box"
+		if !isTime(t) {
+			switch u.sortOf(t) {
+			case "Int":
+				r = "num"
+			case "Bool":
+				r = "bool"
+			case "String":
+				r = "str"
+			case "Slice":
+				r = "slice"
+			}
+		}
+		byRepr[r] = append(byRepr[r], fmt.Sprintf("(= (atag a) %d)", tg))
+	}
+	var cs []string
+	cs = append(cs, "(>= (atag a) 0)", "(=> (= (atag a) 0) (= a nil_any))")
+	if l := byRepr["num"]; len(l) > 0 {
+		cs = append(cs, "(=> "+or(l...)+" (and (= (astr a) \"\") (= (asl a) nil_slice)))")
+	}
+	if l := byRepr["box"]; len(l) > 0 {
+		cs = append(cs, "(=> "+or(l...)+" (and (= (astr a) \"\") (= (asl a) nil_slice) (> (anum a) 0)))")
+	}
+	if l := byRepr["bool"]; len(l) > 0 {
+		cs = append(cs, "(=> "+or(l...)+" (and (= (astr a) \"\") (= (asl a) nil_slice) (or (= (anum a) 0) (= (anum a) 1))))")
+	}
+	if l := byRepr["str"]; len(l) > 0 {
+		cs = append(cs, "(=> "+or(l...)+" (and (= (anum a) 0) (= (asl a) nil_slice)))")
+	}
+	if l := byRepr["slice"]; len(l) > 0 {
+		cs = append(cs, "(=> "+or(l...)+" (and (= (anum a) 0) (= (astr a) \"\") (>= (sptr (asl a)) 0) (>= (slen (asl a)) 0) (<= (slen (asl a)) (scap (asl a))) (<= (scap (asl a)) 9223372036854775807) (=> (= (sptr (asl a)) 0) (= (scap (asl a)) 0))))")
+	}
+	return "(define-fun wf_any ((a Any)) Bool (and " + strings.Join(cs, " ") + "))\n"
 }
